@@ -480,6 +480,11 @@ func (m *vMonitor) after(x *vRun, o vOp, ob string) {
 				if now >= tt+2 {
 					m.report("C05:late", fmt.Sprintf("request %d is still queued at %d, its timeout deadline was %d", rq, now, tt))
 				}
+				if now >= tt+3 {
+					// C03 reads the same fact from the requester's side: a request past its deadline that nobody will ever answer
+					// (its timeout entry is gone) has no terminal reply; the drain would hide it by cancelling the request
+					m.report("C03:unanswered-past-deadline", fmt.Sprintf("request %d has received no terminal reply at %d although its timeout deadline %d passed %d s ago and it is still queued", rq, now, tt, now-tt))
+				}
 			}
 		}
 	}
